@@ -223,7 +223,7 @@ def checktag_jobs(tier):
     # lengths around every plausible counter / vector width (8-bit byte and word counters, 16-bit counters)
     ps = list(range(0, 41)) + [255, 256, 257, 1023, 1024, 1025]
     if tier != "quick":
-        ps += [64, 1000, 1027, 4099, 16385]          # 65535+ exhausts memory in symex; wider counters are left to the length probe
+        ps += [64, 1000, 1027, 4099]                 # 16385+ exhausts memory in symex; wider counters are left to the length probe
     jobs = [Job("checktag-p%d" % p, "c03_checktag.c", {"PLEN": p}, LIBC + S("backend/tinyjambu-util.c"),
                 S("backend/tinyjambu-util.c"), backend="sat", unwind=p + 12, timeout=600 if p < 5000 else 3000,
                 facet="check_tag-real-code") for p in ps]
@@ -246,7 +246,7 @@ def c03(tier):
                      ["tinyjambu_%d_aead_decrypt" % k for k in KSS],
         "units": ["src/backend/tinyjambu-util.c", "src/tinyjambu-{128,192,256}-aead.c",
                   "src/backend/tinyjambu-aead-common-{128,192,256}.c"],
-        "bounds": "check_tag: plaintext_len 0..40, 255..257, 1023..1025 (thorough + 4099, 16385) plus a symbolic-length truncation probe, all tag pairs, all plaintext bytes; "
+        "bounds": "check_tag: plaintext_len 0..40, 255..257, 1023..1025 (thorough + 4099) plus a symbolic-length truncation probe, all tag pairs, all plaintext bytes; "
                   "decrypt: arbitrary (key, nonce, ad, body, tag) with tag = spec tag XOR arbitrary delta, shapes "
                   "ad in {0,1,5,8} x body 0..9 + (3,17),(0,33) (thorough: wider, up to 258), in place and separate; "
                   "call-contract variant with a recording check_tag; clen 0..7 exhaustively",
@@ -270,7 +270,7 @@ def c04(tier):
                   "src/backend/tinyjambu-aead-common-{128,192,256}.c"],
         "bounds": "as C03; rejection => every byte of the clen-8 region is zero, acceptance => the specification's "
                   "plaintext; arbitrary prior buffer contents; in place and separate; 6 cipher variants; check_tag alone "
-                  "with plaintext_len 0..40, 255..257, 1023..1025 (thorough up to 16385, plus the symbolic-length probe) shows every byte is ANDed with the verdict mask",
+                  "with plaintext_len 0..40, 255..257, 1023..1025 (thorough up to 4099, plus the symbolic-length probe) shows every byte is ANDed with the verdict mask",
         "outside": "message lengths outside the window for the end-to-end queries (the clearing loop itself is decided "
                    "for lengths up to 1000 on check_tag alone, and the call contract shows it receives the full region)",
         "stubs": AEAD_STUBS + [SPEC_NOTE], "assumptions": AEAD_ASSUME, "relies_on": ["C05"],
